@@ -35,7 +35,7 @@ def shards(tier, seed):
     return [{"kind": "maps", "index": i, "of": n} for i in range(n)]
 
 
-def build(rules, strict, merge, redirect_defaults, sort_parameters=False):
+def build(rules, strict, merge, redirect_defaults, sort_parameters=False, websocket=False):
     from werkzeug.routing import Map, Rule
 
     rl = []
@@ -49,7 +49,11 @@ def build(rules, strict, merge, redirect_defaults, sort_parameters=False):
             kw["defaults"] = dict(r["defaults"])
         if r.get("alias"):
             kw["alias"] = True
-        rl.append(Rule(R.rule_str(r), endpoint=r["ep"], methods=r["methods"], **kw))
+        if websocket:
+            kw["websocket"] = True
+            rl.append(Rule(R.rule_str(r), endpoint=r["ep"], **kw))
+        else:
+            rl.append(Rule(R.rule_str(r), endpoint=r["ep"], methods=r["methods"], **kw))
     return Map(rl, strict_slashes=strict, merge_slashes=merge, redirect_defaults=redirect_defaults, sort_parameters=sort_parameters)
 
 
@@ -103,8 +107,11 @@ def check_map(rec, rng, rules, strict, merge, rd, script, scheme, sub):
     from werkzeug.routing.exceptions import RequestRedirect
 
     sortp = rng.random() < 0.3
+    ws = scheme in ("ws", "wss")
+    if ws:
+        rules = [dict(r, methods=None) for r in rules]  # websocket rules carry no method sets
     try:
-        m = build(rules, strict, merge, rd, sortp)
+        m = build(rules, strict, merge, rd, sortp, websocket=ws)
     except Exception as e:
         rec.observe(f"map_build_error:{type(e).__name__}")
         return
@@ -330,7 +337,7 @@ def run(shard, rec, rng):
     for _ in range(cfg["maps"]):
         rules = gen_rules(rng)
         check_map(rec, rng, rules, rng.random() < 0.6, rng.random() < 0.6, rng.random() < 0.8, rng.choice(["/", "/app", "/app/", "/a/b"]),
-                  rng.choice(["http", "https"]), rng.choice([None, None, "www"]))
+                  rng.choice(["http", "https", "http", "https", "ws", "wss"]), rng.choice([None, None, "www"]))
     reach.finish()
 
 
